@@ -89,8 +89,8 @@ store_harness!(c12_deleted_address_changes_nothing, {
 });
 
 //@ harness: c12_duplicate_changes_nothing
-//@ tier: thorough
-//@ timeout: 3000
+//@ tier: quick
+//@ timeout: 700
 //@ mem: 20
 //@ covers: none
 //@ unwindset: put_bytes=80; heed::bytes_=260; heed::Table=6; memcmp.0=70; repeat::Repeat=190; Repeat.*try_fold=190; mmap_append=200; read_hex=34; enc_tags=6
